@@ -114,7 +114,15 @@ def make_scenarios(ctx, count):
                 frames.append(G.f_discover(rng, net, m=m, tos=0, bridged=bridged))
                 seq = seq + 1 if seq < 0xFFFF else 1
                 frames.append(G.f_query(rng, net, m, seq=seq, bridged=bridged))
-        s = H.Scenario("q%d" % i, meta=dict(frames=frames, own=own, mtu=cfg["mtu"], bridged=bridged, mtu_changes=mtu_changes, requeried=requeried))
+        stranger_query = None
+        if i % 3 == 2:
+            # the history ends with a Query from a station that is not the session's mapper, under a number of its own: whatever
+            # the responder makes of it, a QueryResp that answers it carries that Query's sequence number
+            other = rng.choice(net.strangers)
+            sq = (seq + rng.choice([1, 2, 0x100, 0x8000, rng.randint(3, 0xFFF0)])) & 0xFFFF or 1
+            stranger_query = len(frames)
+            frames.append(W.query(own, other, sq, eth_src=other))
+        s = H.Scenario("q%d" % i, meta=dict(frames=frames, own=own, mtu=cfg["mtu"], bridged=bridged, mtu_changes=mtu_changes, requeried=requeried, stranger_query=stranger_query))
         s.iface(0, **H.iface_kw(cfg)).glob(**G.global_kw(G.rand_global(rng, icon_size=50)))
         s.add("OPT sleep=0")
         shadow = None
@@ -236,7 +244,20 @@ def monitor(scn, sobj, rep, sf, ck):
             continue
         if op != W.OP_QUERY:
             continue
-        # every Query in this workload comes from the session's mapper; a quick-discovery Reset in between may have
+        if idx == sobj.meta.get("stranger_query"):
+            sq = struct.unpack(">H", fr[30:32])[0]
+            for e in inp.sends():
+                raw = e[3]
+                if raw and len(raw) >= 34 and raw[17] == W.OP_QUERYRESP:
+                    rep.count("queries_from_another_station_answered")
+                    rep.evaluations += 1
+                    rseq = struct.unpack(">H", raw[30:32])[0]
+                    if rseq != sq:
+                        rep.violation("C07:sequence-number-not-echoed:query-from-another-station",
+                                      "scenario %s input %d: Query seq=%d from a station that is not the session's mapper answered by a "
+                                      "QueryResp with seq %d" % (scn.sid, idx + 1, sq, rseq), replay=sobj.text())
+            continue
+        # every other Query in this workload comes from the session's mapper; a quick-discovery Reset in between may have
         # released the mapper role (C05) but the topology session's Queries are still the mapper's and are judged
         if mm.state == MapperModel.UNKNOWN:
             continue
@@ -347,7 +368,8 @@ def run(ctx):
     rep = ctx.report
     rep.rule = ("histories with k in {0,1,cap-1,cap,cap+1,2cap,300,random} distinct observations (plus exact duplicates, pairs "
                 "differing only in Ethernet or only in real source, frames for other stations) between Queries, interleaved "
-                "with Discover/Emit/QueryLargeTlv and Resets, Queries repeated until the reference set is drained; a history "
+                "with Discover/Emit/QueryLargeTlv and Resets, Queries repeated until the reference set is drained, a third of the histories ending with a Query from a station that "
+                "is not the session's mapper (a QueryResp that answers it echoes its number); a history "
                 "is non-trivial when at least one QueryResp listed at least one descriptor")
     rep.assumptions = ["observations differing only in destination or kind are not generated; descriptor kind is not judged",
                        "probes are sent with the topology-discovery service type; mixed addressing is C10's question"]
@@ -362,6 +384,7 @@ def run(ctx):
     run_monitored(ctx, os_gcc, scns[::2], monitor, tag="query-os")              # size-optimised builds of both compilers
     run_monitored(ctx, os_clang, scns[1::2], monitor, tag="query-clang-os")
     c = rep.counters
+    rep.need("queries_from_another_station_answered", rep.counters.get("queries_from_another_station_answered", 0), 100)
     rep.need("queries_judged", c.get("queries_judged", 0), 2000)
     for name in ("fresh-observations-reported-after-the-bound-was-reached-and-drained", "more-bit", "bridged", "direct", "drain>=3-queries", "empty-query", "at-or-over-capacity", "mtu-changed-mid-history"):
         rep.need(name, c.get("reach:" + name, 0), 10)
